@@ -104,6 +104,10 @@ def add_controls(wn, which="all"):
         add(Control(ValueCondition(j3, "pressure", "<", 10.0), ControlAction(pu1, "status", LinkStatus.Open)))
         add(Control._time_control(wn, 3 * 3600 + 600, "SIM_TIME", False, ControlAction(p5, "status", LinkStatus.Closed)))
         add(Control._time_control(wn, 5 * 3600, "CLOCK_TIME", True, ControlAction(p5, "status", LinkStatus.Open)))
+        # instants that are not whole minutes, also beyond 100 h (decimal hours with six digits cannot carry them)
+        add(Control._time_control(wn, 11401, "SIM_TIME", False, ControlAction(p2, "status", LinkStatus.Closed)))
+        add(Control._time_control(wn, 360001, "SIM_TIME", False, ControlAction(p2, "status", LinkStatus.Open)))
+        add(Control._time_control(wn, 13 * 3600 + 59, "CLOCK_TIME", True, ControlAction(pu1, "status", LinkStatus.Open)))
         add(Control(ValueCondition(t1, "level", ">", 4.0), ControlAction(v1, "setting", 25.0)))
         add(Control(ValueCondition(t1, "level", "<", 1.5), ControlAction(pu1, "base_speed", 0.8)))
     if which in ("all", "rules"):
